@@ -178,8 +178,9 @@ class RecoveryPeer:
 
         modes = {
             "skip": ["default", "skip", "skip"],
+            "pureskip": ["pureskip", "pureskip", "default"],
             "inject": ["default", "inject", "inject", "skip"],
-            "mixed": ["default", "skip", "inject", "giveup"],
+            "mixed": ["default", "skip", "inject", "giveup", "pureskip"],
             "giveup": ["giveup"],
         }[self.mode]
         d = self.rng.choice(modes)
@@ -201,6 +202,15 @@ class RecoveryPeer:
         if d == "giveup":
             self.log.append(["giveup", head.position])
             return False
+        if d == "pureskip":
+            # the documented minimal strategy: move the position, report success
+            # (cf. tests/func/parsing/error_recovery: context.position += 1; return True)
+            if head.position >= len(head.input_str):
+                self.log.append(["giveup", head.position])
+                return False
+            head.position = min(len(head.input_str), head.position + n)
+            self.log.append(["pureskip", n, head.position])
+            return True
         if d == "skip":
             head.position = min(len(head.input_str), head.position + n)
             r = default(head)
